@@ -267,8 +267,13 @@ fn valid_packet_inner(ver: Ver, ch: &mut Choices, i: u32) -> Pkt {
         0 => {
             let len = *ch.pick(&[0usize, 1, 5, 40, 127, 128, 300, 2000, 20_000]);
             let qos = ch.choose(3) as u8;
-            let pid = if qos > 0 { Some(1 + ch.choose(500) as u16) } else { None };
-            Pkt::Publish(mk_publish(ver, ch, i, qos, pid, len))
+            let pid = if qos > 0 { Some(if ch.chance(1, 10) { 65_535 } else { 1 + ch.choose(500) as u16 }) } else { None };
+            let mut p = mk_publish(ver, ch, i, qos, pid, len);
+            if ch.chance(1, 30) {
+                // string lengths at the top of their 16-bit range
+                p.topic = "x".repeat(*ch.pick(&[65_535usize, 65_534, 65_533, 65_532, 65_531]));
+            }
+            Pkt::Publish(p)
         }
         1 => {
             let mut c = rc::Connect::new(ver, "client", 30);
